@@ -31,7 +31,25 @@ func execSizesOp(op string) string {
 	if ws[0] == "case" {
 		return "case"
 	}
-	size, segSize, pos, blen := int(atoiU(ws[1])), int(atoiU(ws[2])), int(atoiU(ws[3])), int(atoiU(ws[4]))
+	var sizesOfBatch []int
+	segSize, pre := 0, false
+	if ws[0] == "multi" {
+		// multi <segSize> <pre> s1 s2 …: one batch with these entry sizes; pre=1: after an earlier small append
+		segSize, pre = int(atoiU(ws[1])), ws[2] == "1"
+		for _, x := range ws[3:] {
+			sizesOfBatch = append(sizesOfBatch, int(atoiU(x)))
+		}
+	} else {
+		size, ss, pos, blen := int(atoiU(ws[1])), int(atoiU(ws[2])), int(atoiU(ws[3])), int(atoiU(ws[4]))
+		segSize = ss
+		for i := 0; i < blen; i++ {
+			n := 10
+			if i == pos {
+				n = size
+			}
+			sizesOfBatch = append(sizesOfBatch, n)
+		}
+	}
 	d := simfs.New()
 	d.Record = false
 	f := segment.NewFiler("d", d)
@@ -40,14 +58,18 @@ func execSizesOp(op string) string {
 	if err != nil {
 		return "create-err"
 	}
-	var batch []types.LogEntry
-	for i := 0; i < blen; i++ {
-		n := 10
-		if i == pos {
-			n = size
+	first := uint64(1)
+	if pre {
+		if err := w.Append([]types.LogEntry{{Index: 1, Data: fillPattern(20, 9)}}); err != nil {
+			return "pre-err"
 		}
-		batch = append(batch, types.LogEntry{Index: uint64(1 + i), Data: fillPattern(n, byte(i))})
+		first = 2
 	}
+	var batch []types.LogEntry
+	for i, n := range sizesOfBatch {
+		batch = append(batch, types.LogEntry{Index: first + uint64(i), Data: fillPattern(n, byte(i))})
+	}
+	blen := len(batch) + int(first) - 1
 	if err := w.Append(batch); err != nil {
 		return "err"
 	}
@@ -102,6 +124,7 @@ func sizesMonitor(ops, impl []string) []Violation {
 		out := impl[i]
 		if out == "panic" {
 			vs = append(vs, Violation{Property: "C11", What: "segment code panicked on a size boundary", Ops: []string{op}, Impl: []string{out}})
+			vs = append(vs, Violation{Property: "C15", What: "entries of a size within the documented maximum are neither stored nor refused with an error (panic)", Ops: []string{op}, Impl: []string{out}})
 		}
 		if strings.HasPrefix(out, "ok ") && !strings.HasPrefix(out, "ok readable") {
 			vs = append(vs, Violation{Property: "C15", What: "an entry the WAL acknowledged cannot be read back identically", Detail: out, Ops: []string{op}, Impl: []string{out}})
@@ -148,6 +171,33 @@ func suiteSizes(seed uint64, tier string) *Report {
 	for _, n := range big[:nbig] {
 		c.Ops = append(c.Ops, fmt.Sprintf("big %d %d %d %d", n, MiB, 0, 1))
 		shapes[fmt.Sprintf("big/%d", n)] = true
+	}
+	// batches of 2–3 entries whose frames together end within a few bytes of the writer's 64 KiB commit buffer, every
+	// padding residue, as the first batch of a fresh file (header still pending in the buffer) and after earlier data
+	nm := 120
+	if tier == "thorough" {
+		nm = 1500
+	}
+	for k := 0; k < nm; k++ {
+		ne := 2 + r.Intn(2)
+		pre := r.Intn(2)
+		total := 64*KiB - 24 + r.Intn(33) // sum over the frames of 8 + len (+ 32 for the pending file header)
+		if pre == 0 {
+			total -= 32
+		}
+		total -= 8 * ne
+		var ss []string
+		rest := total
+		for j := 0; j < ne; j++ {
+			n := rest
+			if j < ne-1 {
+				n = total/ne - 12 + r.Intn(25)
+				rest -= n
+			}
+			ss = append(ss, fmt.Sprint(n))
+		}
+		c.Ops = append(c.Ops, fmt.Sprintf("multi %d %d %s", MiB, pre, strings.Join(ss, " ")))
+		shapes[fmt.Sprintf("multi/%d/%d/%d", ne, pre, total%8)] = true
 	}
 	// the boundary itself is always exercised
 	c.Ops = append(c.Ops, fmt.Sprintf("big %d %d 1 2", 64*MiB+1, 4*KiB))
